@@ -656,6 +656,19 @@ func (p *Program) callResult(out Prov, call *ssa.Call, idx int, path string, dep
 		}
 		return
 	}
+	// field-sensitive coin constructors: Coin{Denom, Amount}
+	if (strings.HasSuffix(name, "cosmos-sdk/types.NewCoin") || strings.HasSuffix(name, "cosmos-sdk/types.NewInt64Coin")) && len(c.Args) == 2 {
+		switch {
+		case strings.HasPrefix(path, ".Denom"):
+			out.add(Atom{Kind: "ext", Name: name, Call: call})
+			p.provInto(out, c.Args[0], "", depth)
+			return
+		case strings.HasPrefix(path, ".Amount"):
+			out.add(Atom{Kind: "ext", Name: name, Call: call})
+			p.provInto(out, c.Args[1], "", depth)
+			return
+		}
+	}
 	out.add(Atom{Kind: "ext", Name: name, Call: call})
 	if c.IsInvoke() {
 		// receiver of external interface: keeper dependencies are not data
